@@ -864,6 +864,34 @@ def gen_IvtConsts():
     d("encIvSize", lits[1] if len(lits) == 2 else 0, "second constant addend of `img_len` (counter IV)")
     pe = sorted(set(int_leaves(MIX, ENC, method(enc, "post_encrypt"), loc)))
     o.append(f"/-- values of the constant expressions of `post_encrypt` (literals and named constants alike) -/\ndef postEncryptLiterals : List Nat := {pe}")
+    # the slices `image_bytes[lo:hi]` of the forward (non-revert) part of post_encrypt, bounds normalised: constants BY VALUE,
+    # `self.app_len` -> "app_len", absent -> "", anything else as unparsed source (so `len(self.app)` is visible as such)
+    def _bound(b):
+        if b is None:
+            return ""
+        try:
+            v = cval(MIX, ENC, b, loc)
+            if isinstance(v, int) and not isinstance(v, bool):
+                return str(v)
+        except Exception:  # noqa: BLE001  (not a constant of this class)
+            pass
+        if isinstance(b, ast.Attribute) and isinstance(b.value, ast.Name) and b.value.id == "self":
+            sib = _self_attr_anywhere(menv_of(MIX), b.attr)       # a constant another mixin of the composed class provides (e.g. HMAC_OFFSET)
+            if sib is not None:
+                return str(sib)
+        if isinstance(b, ast.Attribute) and isinstance(b.value, ast.Name) and b.value.id == "self":
+            return b.attr
+        return ast.unparse(b).replace('"', "'")
+    pes = []
+    for st in method(enc, "post_encrypt").body:
+        if isinstance(st, ast.If) and isinstance(st.test, ast.Name) and st.test.id == "revert":
+            continue
+        for nd in ast.walk(st):
+            if isinstance(nd, ast.Subscript) and isinstance(nd.value, ast.Name) and nd.value.id == "image_bytes" and isinstance(nd.slice, ast.Slice):
+                pes.append((nd.lineno, nd.col_offset, _bound(nd.slice.lower), _bound(nd.slice.upper)))
+    pes = [f'("{lo}", "{hi}")' for _, _, lo, hi in sorted(pes)]
+    o.append("/-- the slices `image_bytes[lo:hi]` of the forward part of `post_encrypt`, in source order (constants by value, `self.x` as `x`) -/\n"
+             f"def postEncryptSlices : List (String × String) := [{', '.join(pes)}]")
     mp = sorted(set(int_leaves(MIX, "Mbi_MixinCtrInitVector", method(cl["Mbi_MixinCtrInitVector"], "mix_parse"), loc)))
     o.append(f"/-- values of the constant expressions of `Mbi_MixinCtrInitVector.mix_parse` (literals and named constants alike) -/\ndef ctrIvParseLiterals : List Nat := {mp}")
     # minimal application size / minimal size of data with an IVT: `if len(x) < N: raise`
